@@ -86,7 +86,7 @@ impl crate::storage::Storable for ValueState {
     }
 
     fn key_from_full_binary(bin: &[u8]) -> Result<ValueStateKey, String> {
-        if bin.len() < 10 {
+        if bin.len() < 9 {
             return Err("Not enough bytes to form a proper key".to_string());
         }
 
